@@ -22,7 +22,10 @@ RULE = ('every abstract table of 0..N rows (row = kind k|f x container position 
         '{absent, A, B}) per template {unique, key, key+keyref} x scope {root, wrap (rows also inside a wrapper element the selector does not reach), mid (two sibling scope '
         'elements), '
         'nest (scope element inside itself), up (keyref on the parent of two key scope elements), up0 (the same, a key '
-        'scope element present only when it has rows)} x arity {1, 2 fields}; '
+        'scope element present only when it has rows), roote (root shape, string/token alphabets whose v1 is the empty '
+        'string), ref-ab / ref-ba / ref-pc / ref-cp (XSD 1.1 only: the constraint is declared on one of two sibling '
+        'scope elements a, b - or of a parent p and its child n - and reused by the other with ref=; template keyrefR '
+        'reuses the keyref too)} x arity {1, 2 fields}; '
         'each table is expanded to every variant: version {1.0, 1.1} x value alphabet (string, token, integer, '
         'decimal, boolean, QName with 1-3 lexical sets each; every A cell as v1 and as v1\') x field layout '
         '(@a, c, c/d absent-c, c/d empty-c | @a,@b ; @a,c) x row order (all orders when R^n <= 4096, else the '
@@ -59,12 +62,21 @@ ALPHAS = {
     'QName/a':   ('QName',   ['p:x', 'q:x', 'p:y']),
     'QName/b':   ('QName',   ['p:x', 'q:x', 'r:x']),
     'QName/c':   ('QName',   ['p:x', ('s:x', {'s': 'urn:a'}), ('p:x', {'p': 'urn:b'})]),
+    'string/e':  ('string',  ['', ' ', 'x']),            # the empty string is a value; ' ' is another one
+    'token/e':   ('token',   ['', '  ', 'x']),           # '  ' collapses to the empty string
 }
+ROOT11 = [a for a in ALPHAS if not a.endswith('/e')]     # the eleven alphabets of the root scope (keys depend on it)
+EMPTY2 = ['string/e', 'token/e']                         # scope 'roote': the root shape with empty-string values
 BASE5 = ['string', 'integer/a', 'decimal/a', 'boolean/a', 'QName/a']
+REF1 = ['integer/a']                                     # XSD 1.1 constraint reuse by ref (the type plays no part)
 LAYOUTS = {'@a': ['@a'], 'c': ['c'], 'c/d': ['c/d'], 'c/d~': ['c/d'], '@a,@b': ['@a', '@b'], '@a,c': ['@a', 'c']}
 ARITY = {1: ['@a', 'c', 'c/d', 'c/d~'], 2: ['@a,@b', '@a,c']}
-TEMPLATES = ('unique', 'key', 'keyref')
-SCOPES = ('root', 'wrap', 'mid', 'nest', 'up', 'up0')
+TEMPLATES = ('unique', 'key', 'keyref', 'keyrefR')
+SCOPES = ('root', 'roote', 'wrap', 'mid', 'nest', 'up', 'up0', 'ref-ab', 'ref-ba', 'ref-pc', 'ref-cp')
+# XSD 1.1 only: a constraint declared on one scope element and reused by the other with <xs:key ref="K"/>:
+# siblings a, b (declared on a / on b) and parent p with child n (declared on p / on n).  Template 'keyref' has the
+# keyref only where the key is declared, 'keyrefR' reuses the keyref as well (<xs:keyref ref="R"/>).
+REF_SCOPES = {'ref-ab': ('a', 'b'), 'ref-ba': ('b', 'a'), 'ref-pc': ('p', 'n'), 'ref-cp': ('n', 'p')}
 ORDERED_MAX = 4096
 SLICES = 32                    # quick explores 1/SLICES of the next bound, chosen by the seed
 TARGET = 25000                 # documents per shard
@@ -73,13 +85,21 @@ TARGET = 25000                 # documents per shard
 def alphas_of(scope, nf, n):
     """All eleven value alphabets at the root scope (the five base ones for 4-row two-field tables), the five
     base ones in the other scope shapes.  Depends on the table only, never on the tier."""
-    return list(ALPHAS) if scope == 'root' and not (nf == 2 and n >= 4) else BASE5
+    if scope == 'roote':
+        return EMPTY2
+    if scope in REF_SCOPES:
+        return REF1
+    return ROOT11 if scope == 'root' and not (nf == 2 and n >= 4) else BASE5
+
+
+def versions_of(scope):
+    return ('1.1',) if scope in REF_SCOPES else ('1.0', '1.1')
 
 
 def row_bound(tier, scope, nf):
     """(complete bound, next bound explored by residue slice or None)."""
     base = 3 if (scope == 'root' or nf == 1) else 2
-    if scope in ('nest', 'wrap'):
+    if scope in ('nest', 'wrap', 'roote'):
         return base, None                   # same bound in both tiers: the next bound of these shapes is the most
                                             # expensive part of the space and repeats the behaviours of this one
     return (base, base + 1) if tier == 'quick' else (base + 1, None)
@@ -93,8 +113,8 @@ def row_alphabet(template, scope, nf):
     if scope in ('up', 'up0'):
         places = [('k', 0), ('k', 1), ('f', 2)]
     else:
-        npos = {'root': 1, 'wrap': 2, 'mid': 2, 'nest': 3}[scope]
-        kinds = ('k', 'f') if template == 'keyref' else ('k',)
+        npos = {'root': 1, 'roote': 1, 'wrap': 2, 'mid': 2, 'nest': 3}.get(scope, 2)
+        kinds = ('k', 'f') if template in ('keyref', 'keyrefR') else ('k',)
         places = [(k, p) for k in kinds for p in range(npos)]
     return [(k, p, c) for (k, p) in places for c in cells]
 
@@ -119,6 +139,8 @@ def groups():
         for scope in SCOPES:
             if scope in ('up', 'up0') and template != 'keyref':
                 continue
+            if template == 'keyrefR' and scope not in REF_SCOPES:
+                continue
             for nf in (1, 2):
                 yield template, scope, nf
 
@@ -140,7 +162,7 @@ def expansions(table):
 def n_variants(template, scope, nf, table):
     na = sum(c == 1 for _, _, cells in table for c in cells)
     orders = 1 if is_ordered(template, scope, nf, len(table)) else 2
-    return 2 * len(alphas_of(scope, nf, len(table))) * len(ARITY[nf]) * orders * 2 ** na
+    return len(versions_of(scope)) * len(alphas_of(scope, nf, len(table))) * len(ARITY[nf]) * orders * 2 ** na
 
 
 # --- documents ------------------------------------------------------------------------------------
@@ -173,8 +195,13 @@ def build_tree(scope, table, alpha, rev):
     at = {}
     for kind, pos, cells in seq:
         at.setdefault(pos, []).append(make_row(kind, cells, alpha))
-    if scope == 'root':
+    if scope in ('root', 'roote'):
         return ('r', at.get(0, []))
+    if scope in ('ref-ab', 'ref-ba'):
+        return ('r', [('elem', ('a', at.get(0, []))), ('elem', ('b', at.get(1, [])))])
+    if scope in ('ref-pc', 'ref-cp'):                                # the child sits after the first row of the parent
+        outer = at.get(0, [])
+        return ('r', [('elem', ('p', outer[:1] + [('elem', ('n', at.get(1, [])))] + outer[1:]))])
     if scope == 'wrap':                                             # rows inside <g> are not selected by 'k' / 'f'
         return ('r', at.get(0, []) + [('elem', ('g', at.get(1, [])))])
     if scope == 'mid':
@@ -237,12 +264,25 @@ def schema_text(template, layout, ftype, scope):
     tag = 'unique' if template == 'unique' else 'key'
     key = '<xs:%s name="K"><xs:selector xpath="k"/>%s</xs:%s>' % (tag, fields, tag)
     keyref = ('<xs:keyref name="R" refer="K"><xs:selector xpath="f"/>%s</xs:keyref>' % fields
-              if template == 'keyref' else '')
+              if template in ('keyref', 'keyrefR') else '')
     k = '<xs:element name="k" type="Row"/>'
     f = '<xs:element name="f" type="Row"/>'
     many = '<xs:choice minOccurs="0" maxOccurs="unbounded">%s</xs:choice>'
     if scope == 'root':
         body = '<xs:element name="r"><xs:complexType>%s</xs:complexType>%s%s</xs:element>\n' % (many % (k + f), key, keyref)
+    elif scope in REF_SCOPES:
+        # k and f are global declarations, so the declared and the reusing constraint select the same declarations
+        refs = '<xs:element ref="k"/><xs:element ref="f"/>'
+        declared = key + keyref
+        reused = '<xs:%s ref="K"/>%s' % (tag, '<xs:keyref ref="R"/>' if template == 'keyrefR' else '')
+        cons = {REF_SCOPES[scope][0]: declared, REF_SCOPES[scope][1]: reused}
+        if scope in ('ref-ab', 'ref-ba'):
+            inner = ''.join('<xs:element name="%s"><xs:complexType>%s</xs:complexType>%s</xs:element>'
+                            % (name, many % refs, cons[name]) for name in ('a', 'b'))
+        else:
+            n = '<xs:element name="n"><xs:complexType>%s</xs:complexType>%s</xs:element>' % (many % refs, cons['n'])
+            inner = '<xs:element name="p"><xs:complexType>%s</xs:complexType>%s</xs:element>' % (many % (refs + n), cons['p'])
+        body = '%s\n%s\n<xs:element name="r"><xs:complexType>%s</xs:complexType></xs:element>\n' % (k, f, many % inner)
     elif scope == 'wrap':
         refs = '<xs:element ref="k"/><xs:element ref="f"/>'
         g = '<xs:element name="g"><xs:complexType>%s</xs:complexType></xs:element>' % (many % refs)
@@ -262,7 +302,7 @@ def schema_text(template, layout, ftype, scope):
 
 
 def get_schema(version, template, layout, ftype, scope):
-    scope = 'up' if scope == 'up0' else scope
+    scope = {'up0': 'up', 'roote': 'root'}.get(scope, scope)
     k = (version, template, layout, ftype, scope)
     if k not in _schemas:
         _schemas[k] = VERSIONS[version](schema_text(template, layout, ftype, scope))
@@ -271,13 +311,17 @@ def get_schema(version, template, layout, ftype, scope):
 
 def decl_of(template, scope, ftype):
     kind = 'unique' if template == 'unique' else 'key'
-    if scope in ('root', 'wrap'):
+    if scope in REF_SCOPES:                       # both elements carry the key; the keyref where it is declared / reused
+        declared_on, reused_on = REF_SCOPES[scope]
+        ref_on = {'keyref': (declared_on,), 'keyrefR': (declared_on, reused_on)}.get(template)
+        return ref.Decl(kind, ftype, (declared_on, reused_on), ref_on)
+    if scope in ('root', 'roote', 'wrap'):
         key_on = 'r'
     else:
         key_on = 'm'
     ref_on = None
     if template == 'keyref':
-        ref_on = 'r' if scope in ('root', 'wrap', 'up', 'up0') else 'm'
+        ref_on = 'r' if scope in ('root', 'roote', 'wrap', 'up', 'up0') else 'm'
     return ref.Decl(kind, ftype, key_on, ref_on)
 
 
@@ -305,7 +349,7 @@ def variants(template, scope, nf, table):
         for ctab in conc:
             for rev in orders:
                 for layout in ARITY[nf]:
-                    for version in ('1.0', '1.1'):
+                    for version in versions_of(scope):
                         yield version, alpha, layout, ctab, rev
 
 
@@ -582,5 +626,6 @@ def bounds(tier, seed):
             full, (' + seed slice %d/%d of rows = %d' % (seed % SLICES, SLICES, nxt)) if nxt else '')
     return {'size': b, 'deviations': 'complete product of versions x value alphabets x layouts x v1/v1\' expansions',
             'alphabets': {k: [v[0], [x if isinstance(x, str) else list(x) for x in v[1]]] for k, v in ALPHAS.items()},
-            'alphabets_non_root_scopes_and_4_row_2_field_tables': BASE5, 'id_tables': 'all ordered tables of <= %d rows x 6 carrier layouts '
+            'alphabets_root': ROOT11, 'alphabets_roote': EMPTY2, 'alphabets_ref_scopes': REF1,
+            'alphabets_other_scopes_and_4_row_2_field_root_tables': BASE5, 'id_tables': 'all ordered tables of <= %d rows x 6 carrier layouts '
             'x root ID x 2 versions + 16 root-simple-content documents' % (3 if tier == 'quick' else 4)}
